@@ -119,6 +119,14 @@ def cli_exec(root, target_rel, settings, cwd_rel="cwd", order_key=None, faults=(
     res["fired"] = list(plan.fired)
     res["n_open"] = plan.n_open
     res["args"] = [norm(a) for a in args]
+    # 'Error processing <path>' names the path as the tool built it (relative when the argument was
+    # relative): resolve against the cwd of the run so that callers always see <SBX>/...
+    eps = []
+    for p in error_paths(res["err"]):
+        if not p.startswith("<SBX>") and not os.path.isabs(p):
+            p = "<SBX>/" + os.path.relpath(os.path.normpath(os.path.join(cwd, p)), root)
+        eps.append(p)
+    res["err_paths"] = eps
     return res
 
 
